@@ -608,6 +608,30 @@ pub fn run_c04(tier: Tier, seed: u64, index: u64, rec: &mut RunRecord) {
         }
     }
     if r.chance(1, 8) && !t.authorized.is_empty() {
+        // one authorized key is declared with another (possibly unimplemented) scheme; its signature is
+        // presented under the re-declared key's id: nobody has signed with that identity
+        let pos = r.idx(t.authorized.len());
+        let k = t.authorized[pos];
+        let scheme = *r.pick(&["rsassa-pss-sha384", "ed25519", "ecdsa-sha2-nistp256", "rsassa-pss-sha256", "rsassa-pss-sha512", "x"]);
+        // (the key's own scheme would only give the same key another id — its signature verifies)
+        let own = match t.keys[k].kind {
+            KeyKind::Ed | KeyKind::EdPk8 => "ed25519",
+            KeyKind::Ecdsa => "ecdsa-sha2-nistp256",
+            KeyKind::Rsa2048S256 | KeyKind::Rsa4096S256 => "rsassa-pss-sha256",
+            KeyKind::Rsa2048S512 | KeyKind::Rsa4096S512 => "rsassa-pss-sha512",
+            KeyKind::RsaUnknown => "rsassa-pss-sha384",
+        };
+        if let Some(pk) = redeclared(&keys::key(t.keys[k]), scheme) {
+            if scheme != own && key_id_string(&pk) != keys::key(t.keys[k]).id {
+                t.auth_scheme.push((pos, scheme.to_string()));
+                if let Some(sp) = t.signers.iter().position(|s| *s == k) {
+                    t.ops.push(DocOp::RelabelId { at: sp, id: key_id_string(&pk) });
+                }
+                t.labels.push("AUTH-SCHEME-REDECLARED".into());
+            }
+        }
+    }
+    if r.chance(1, 8) && !t.authorized.is_empty() {
         // one key listed twice, the second time as a key object deserialized from JSON that names
         // another key's id; its signature is repeated under that id
         let pos = r.idx(t.authorized.len());
